@@ -52,9 +52,6 @@ Qed.
 Lemma be_bytes_unique n l : Bytes l -> length l = n -> be_bytes n (be_value l 0) = l.
 Proof. intros Hb <-. apply be_bytes_be_value. assumption. Qed.
 
-Lemma be_value_repeat0 n l acc : be_value (repeat 0 n ++ l) 0 = be_value l 0 -> True.
-Proof. trivial. Qed.
-
 Lemma be_value_zeros n l : be_value (repeat 0 n ++ l) 0 = be_value l 0.
 Proof. induction n as [|n IH]; simpl; auto. Qed.
 
